@@ -1185,9 +1185,9 @@ class Walker:
         for s in m:
             s = s.copy()
             if bind:
-                for pe in (elems or []):
+                for i, pe in enumerate(elems or []):
                     for name in pat_names(pe):
-                        s.env[name] = Unknown(name)
+                        s.env[name] = Unknown("%s.%d" % (describe(v), i))
                 for f in (fields or []):
                     for name in pat_names(f["pat"]):
                         s.env[name] = Unknown(name)
